@@ -63,6 +63,11 @@ def proj_disp_all(i, m):
     return i, m
 
 
+def proj_ent(i, m):
+    # per request (class, rendering) in the sequential history, alone on a fresh container, in the concurrent batch
+    return i[:3], m[:3]
+
+
 TB_ROUTING = ['regexp.MatchString / full-segment match are oracles tabulated per case with Go\'s regexp package',
               'RouterJSR311: compiled template expressions are modelled segment-wise (DESIGN 3.3), valid for regex '
               'variables that cannot match "/" or the empty string and have no capture groups',
@@ -357,3 +362,32 @@ PROPS.update({
                     'other and with the model (status, handler identity, Location).',
     ),
 })
+RULE_ENT = ('histories of 1-5 POST requests to an echo route that calls ReadEntity: a value (int64 extremes, 2^53+1, strings with '
+            'quotes / markup / unicode / emoji / tab and newline, bool, nested items) written by go-restful\'s own JSON or XML entity '
+            'writer (pretty or not), then gzip / deflate / not encoded with the standard library, then intact / truncated / header '
+            'overwritten / garbage / empty; declared Content-Type (exact, with parameters, custom registered key, unknown, empty, '
+            'wrong case) and Content-Encoding (matching or not) ; default request content type none/json/xml; both providers, '
+            'capacities 0/1/2/8; sequential, alone on a fresh container, and (20%) three concurrent copies; distinct = distinct '
+            'case text; every case non-trivial')
+PROPS.update({
+    'C16': dict(
+        domains=[dict(name='ent', quick=10000, thorough=300000)],
+        race_domains=[dict(name='ent', quick=200, thorough=5000, args=['-force-conc'])],
+        verdicts=['c16_*'],
+        project={'ent': proj_ent},
+        prop_files=['props/C16.v'],
+        trivial_classes=(),
+        rule=RULE_ENT,
+        trusted_base=['encoding/json, encoding/xml, compress/gzip, compress/zlib: section variables of the theorems; in the '
+                      'differential run their verdict on every byte string in play is tabulated by the harness with the standard '
+                      'library alone and given to the model as an oracle'],
+        assumptions=['codec contracts: decode (marshal v) = v, gunzip (gzip b) = b, inflate (deflate b) = b',
+                     'Content-Type values containing two registered keys are not generated (map iteration order)'],
+        explanation='Theorems Props.C16_round_trip / C16_never_panics / C16_history / C16_parameters on the Coq model of '
+                    'Request.ReadEntity + accessorAt; every request answered identically in the history, alone and concurrently, '
+                    'equal to the model; faithful requests must read the value back.',
+    ),
+})
+PROPS['C13']['domains'].append(dict(name='ent', quick=4000, thorough=100000))
+PROPS['C13']['project']['ent'] = proj_ent
+PROPS['C13']['rule'] += ' | ' + RULE_ENT + ' (for C13: the ledger of the instrumenting provider around ReadEntity\'s gzip readers)'
